@@ -333,6 +333,7 @@ def run(ctx):
     run_mgs(ctx)
     run_npo(ctx)
     run_getters(ctx)
+    run_resolve(ctx)
 
 
 def run_mgs(ctx):
@@ -494,6 +495,72 @@ def run_getters(ctx):
             if bool(ret) != want or bool(m.is_solved()) != want or got != want:
                 ctx.violation(f"{name}: status {status} but solve()={ret}, is_solved()={m.is_solved()}, getter_returned={got}",
                               case, site=name + ".solve")
+
+
+def run_resolve(ctx):
+    """the same model object solved twice: first for real (proven optimal), then again with the run forced inconclusive /
+    infeasible. After the second solve() the object must not call itself solved, and it must hand out nothing.
+    Cyclic k-models and the utility classes (MinSetCover, MinGenSet: one solve, forced status) are included."""
+    fp, rng = ctx.fp, ctx.rng
+    def cyc_graph():
+        G = nx.DiGraph()
+        for u, v, f in [("s", "a", 2), ("a", "b", 4), ("b", "a", 2), ("b", "t", 2)]:
+            G.add_edge(u, v, flow=f * rng.choice([1, 2]))
+        return G
+    classes = [("kFlowDecomp", lambda: fp.kFlowDecomp(mfd_input(rng), flow_attr="flow", k=rng.randint(2, 4), weight_type=int,
+                                                      optimization_options={"optimize_with_greedy": False})),
+               ("kLeastAbsErrors", lambda: fp.kLeastAbsErrors(mfd_input(rng), flow_attr="flow", k=rng.randint(1, 3), weight_type=int)),
+               ("kPathCover", lambda: fp.kPathCover(mfd_input(rng), k=rng.randint(2, 5))),
+               ("kFlowDecompCycles", lambda: fp.kFlowDecompCycles(cyc_graph(), flow_attr="flow", k=rng.randint(1, 2), weight_type=int)),
+               ("kPathCoverCycles", lambda: fp.kPathCoverCycles(cyc_graph(), k=rng.randint(1, 2)))]
+    for it in range(ctx.n(10, 60)):
+        name, mk = rng.choice(classes)
+        for st in INCONCLUSIVE[:3] + ["kInfeasible"]:
+            m = mk()
+            first = m.solve()
+            if not first or not m.is_solved():
+                continue
+            with inject.SolverFaults(fp, {0: st}):
+                ret = m.solve()
+                status = m.solver.get_model_status()
+                got = True
+                try:
+                    m.get_solution(); m.get_objective_value()
+                except Exception:
+                    got = False
+            case = {"class": name, "sequence": ["solve() -> optimal", f"solve() again, forced {st}"], "status": status,
+                    "second_solve": ret, "is_solved": bool(m.is_solved()), "getter_returned": got}
+            ctx.rep.count("K3.resolve", case, nontrivial=True, hist=[name, st])
+            ctx.rep.cov["oracle_evaluations"] += 1
+            if status != "kOptimal" and (ret or m.is_solved() or got):
+                ctx.violation(f"{name}: solved once, then solve() again ended with {status}: solve()={ret}, is_solved()={m.is_solved()}, "
+                              f"getters returned data={got}", case, site=name + ".solve:resolve")
+    # utility classes: one solve with a forced status
+    for it in range(ctx.n(6, 30)):
+        n = rng.randint(3, 6)
+        universe = list(range(n))
+        subsets = [sorted(rng.sample(universe, rng.randint(1, n))) for _ in range(rng.randint(2, 5))] + [universe]
+        for st in INCONCLUSIVE[:3] + ["kInfeasible"]:
+            with inject.SolverFaults(fp, {0: st}):
+                m = fp.MinSetCover(universe=universe, subsets=subsets)
+                ret = m.solve()
+                try:
+                    solved = bool(m.is_solved())
+                except Exception:
+                    solved = False
+                got = True
+                try:
+                    sol = m.get_solution()
+                    got = sol is not None
+                except Exception:
+                    got = False
+            case = {"class": "MinSetCover", "universe": universe, "subsets": subsets, "forced": st, "solve": ret,
+                    "is_solved": solved, "getter_returned": got}
+            ctx.rep.count("K3.resolve", case, nontrivial=True, hist=["MinSetCover", st])
+            ctx.rep.cov["oracle_evaluations"] += 1
+            if ret or solved or got:
+                ctx.violation(f"MinSetCover: the run ended with {st} but solve()={ret}, is_solved()={solved}, get_solution() returned "
+                              f"data={got}", case, site="MinSetCover.solve")
 
 
 def search(ctx):
